@@ -1435,10 +1435,17 @@ class LegCharge:
             If perm_flat mixes blocks of different qindex.
 
         """
-        perm_flat = np.asarray(perm_flat)
-        perm_qind = perm_flat[self.slices[:-1]]
+        perm_flat = np.asarray(perm_flat, dtype=np.intp)
+        if perm_flat.shape != (self.ind_len,) or np.any(np.sort(perm_flat) != np.arange(self.ind_len)):
+            raise ValueError('not a permutation of the indices of the leg')
+        # the old qindex of every entry; a block of the permuted leg starts where an old block starts
+        qinds = np.searchsorted(self.slices, perm_flat, side='right') - 1
+        perm_qind = qinds[perm_flat == self.slices[qinds]]
+        # blocks of size 0 contain no index: they keep their relative order behind the others
+        empty = np.nonzero(self.slices[1:] == self.slices[:-1])[0]
+        perm_qind = np.concatenate([perm_qind, empty]).astype(np.intp, copy=False)
         # check if perm_qind indeed resembles the permutation
-        if np.any(perm_flat != self.perm_flat_from_perm_qind(perm_qind)):
+        if len(perm_qind) != self.block_number or np.any(perm_flat != self.perm_flat_from_perm_qind(perm_qind)):
             raise ValueError('Permutation mixes qind')
         return perm_qind
 
